@@ -1,11 +1,14 @@
 #!/venv/bin/python
-"""Self-test of the machinery (DESIGN.md 6): every seeded change must be reported by the check of the property it breaks,
-every semantic no-op must keep the checks silent.  Patches are applied to a scratch copy of /repo/src outside /repo and
-/verif; evidence of these runs goes to .scratch/, never to evidence/.
+"""Self-test of the machinery (DESIGN.md 6): every seeded change and every reverted fix must be reported by the check of
+the property it breaks, every semantic no-op must keep the checks silent.  Patches are applied to a scratch copy of
+/repo/src outside /repo and /verif; evidence and replay files of these runs go to .scratch/, never to evidence/.
 
-    tools/selftest.py [--only ID ...] [--noops] [--jobs N]
+    tools/selftest.py [--only ID ...] [--seeds] [--regress] [--noops] [--jobs N] [--tier quick|thorough]
+
+Without --seeds/--regress/--noops all three groups run.
 """
 import argparse
+import concurrent.futures as cf
 import glob
 import json
 import os
@@ -19,16 +22,20 @@ NOOP_CHECKS = {"exception-message-and-class": ["C05", "C18"], "copy-spelling": [
                "searchsorted-equivalent": ["C01", "C03"], "contextvar-token-local-rename": ["C19"]}
 
 
-def run_check(prop, src_root):
-    p = subprocess.run([os.path.join(VERIF, "check"), prop, "--repo", src_root], cwd=VERIF, capture_output=True, text=True, timeout=3000)
-    return p.returncode, p.stdout.count("\nVIOLATION") + (1 if p.stdout.startswith("VIOLATION") else 0)
+def run_check(prop, src_root, tier, tag):
+    env = dict(os.environ)
+    env["VERIF_EVIDENCE_DIR"] = os.path.join(VERIF, ".scratch", "selftest-evidence", tag)
+    p = subprocess.run([os.path.join(VERIF, "check"), prop, "--tier", tier, "--repo", src_root], cwd=VERIF, capture_output=True, text=True,
+                       timeout=6000, env=env)
+    nv = sum(1 for line in p.stdout.splitlines() if line.startswith("VIOLATION"))
+    return p.returncode, nv
 
 
 def with_patch(patch, fn):
     tmp = tempfile.mkdtemp(prefix="physt-selftest-")
     try:
         shutil.copytree("/repo/src", os.path.join(tmp, "src"))
-        r = subprocess.run(["patch", "-p1", "-s", "-i", patch], cwd=tmp, capture_output=True, text=True)
+        r = subprocess.run(["patch", "-p1", "-s", "--no-backup-if-mismatch", "-i", patch], cwd=tmp, capture_output=True, text=True)
         if r.returncode != 0:
             return None
         return fn(tmp)
@@ -36,37 +43,64 @@ def with_patch(patch, fn):
         shutil.rmtree(tmp, ignore_errors=True)
 
 
+def case_mutant(name, patch, props, tier):
+    """A change that breaks a property: at least one of the named checks must exit 1 with a VIOLATION line."""
+    res = with_patch(patch, lambda tmp: [(p,) + run_check(p, tmp, tier, name) for p in props])
+    if res is None:
+        return name, "NOT-APPLICABLE", "patch does not apply to the current tree"
+    ok = any(rc == 1 and nv > 0 for (_p, rc, nv) in res)
+    return name, "caught" if ok else "MISSED", res
+
+
+def case_noop(name, patch, props, tier):
+    res = with_patch(patch, lambda tmp: [(p,) + run_check(p, tmp, tier, name) for p in props])
+    if res is None:
+        return name, "NOT-APPLICABLE", "patch does not apply to the current tree"
+    ok = all(rc == 0 for (_p, rc, _nv) in res)
+    return name, "silent" if ok else "FALSE ALARM", res
+
+
 def main():
     ap = argparse.ArgumentParser()
     ap.add_argument("--only", nargs="*")
+    ap.add_argument("--seeds", action="store_true")
+    ap.add_argument("--regress", action="store_true")
     ap.add_argument("--noops", action="store_true")
+    ap.add_argument("--jobs", type=int, default=3)
+    ap.add_argument("--tier", default="quick")
     a = ap.parse_args()
-    bad = 0
-    rows = []
-    if not a.noops:
+    every = not (a.seeds or a.regress or a.noops)
+    jobs = []
+    if a.seeds or every:
         for d in sorted(glob.glob(os.path.join(VERIF, "seeded", "C*"))):
             sid = os.path.basename(d)
-            if a.only and sid not in a.only:
-                continue
             meta = json.load(open(os.path.join(d, "meta.json")))
             props = [c.split(":")[0] for c in meta["checks_run"] if ":rc=1" in c] or [meta["breaks_property"]]
-            res = with_patch(os.path.join(d, "patch.diff"), lambda tmp: [(p,) + run_check(p, tmp) for p in props])
-            ok = res is not None and any(rc == 1 and nv > 0 for (_p, rc, nv) in res)
-            rows.append((sid, "caught" if ok else "MISSED", res))
-            bad += 0 if ok else 1
-            print(sid, "caught" if ok else "MISSED", res, flush=True)
-    for f in sorted(glob.glob(os.path.join(VERIF, "seeded", "noop", "*.diff"))):
-        name = os.path.basename(f)[:-5]
-        if a.only and name not in a.only:
-            continue
-        res = with_patch(f, lambda tmp: [(p,) + run_check(p, tmp) for p in NOOP_CHECKS.get(name, ["C03"])])
-        ok = res is not None and all(rc == 0 for (_p, rc, _nv) in res)
-        rows.append((name, "silent" if ok else "FALSE ALARM", res))
-        bad += 0 if ok else 1
-        print(name, "silent" if ok else "FALSE ALARM", res, flush=True)
+            jobs.append((case_mutant, sid, os.path.join(d, "patch.diff"), props))
+    if a.regress or every:
+        for e in json.load(open(os.path.join(VERIF, "seeded", "regress", "index.json"))):
+            fn = case_noop if e.get("expect") == "silent" else case_mutant      # a revert made unreachable by a later fix is a no-op
+            jobs.append((fn, "revert-" + e["name"], os.path.join(VERIF, "seeded", "regress", e["name"] + ".diff"), e["properties"][:1]))
+    if a.noops or every:
+        for f in sorted(glob.glob(os.path.join(VERIF, "seeded", "noop", "*.diff"))):
+            name = os.path.basename(f)[:-5]
+            jobs.append((case_noop, name, f, NOOP_CHECKS.get(name, ["C03"])))
+    if a.only:
+        jobs = [j for j in jobs if j[1] in a.only or j[1].replace("revert-", "") in a.only]
+    rows, bad, na = [], 0, 0
+    with cf.ThreadPoolExecutor(max_workers=max(1, a.jobs)) as ex:
+        futs = [ex.submit(fn, name, patch, props, a.tier) for (fn, name, patch, props) in jobs]
+        for fu in cf.as_completed(futs):
+            name, verdict, res = fu.result()
+            rows.append((name, verdict, res))
+            bad += verdict in ("MISSED", "FALSE ALARM")
+            na += verdict == "NOT-APPLICABLE"
+            print(name, verdict, res, flush=True)
+    rows.sort()
     os.makedirs(os.path.join(VERIF, ".scratch"), exist_ok=True)
     json.dump(rows, open(os.path.join(VERIF, ".scratch", "selftest.json"), "w"), indent=1)
-    print(f"selftest: {len(rows)} cases, {bad} failures")
+    shutil.rmtree(os.path.join(VERIF, ".scratch", "selftest-evidence"), ignore_errors=True)
+    print(f"selftest: {len(rows)} cases, {bad} failures, {na} patches not applicable to this tree")
     return 1 if bad else 0
 
 
